@@ -127,3 +127,90 @@ Print Assumptions C10_gen_unify.
 Print Assumptions C10_gen_cast_range.
 Print Assumptions C10_gen_enum_step.
 Print Assumptions C10_gen_const_wrap.
+
+(* ================= added after the coverage audit (docs/COVERAGE_AUDIT.md) ================= *)
+From V.Model Require Import Cast.
+From V.Proofs Require Import CastP.
+From Coq Require Import Lia.
+
+(* --- Signal initial values and memory initial rows are wrapped the same way as constants --- *)
+(* an int on a Shape: the unique value of the shape's range congruent to it (C10_const_norm_spec) *)
+Theorem C10_init_wrapped s v : wf_shape s = true ->
+  get_init_value (SShape s) (IInt v) = Ok (norm s v) /\ in_range s (norm s v) /\ exists k, norm s v = v + k * 2 ^ width s.
+Proof. intros H. split; [apply init_int_wrapped; auto|split; [apply norm_in_range; auto|apply norm_congr; auto]]. Qed.
+Print Assumptions C10_init_wrapped.
+
+(* a Const / Cat / Slice expression as the initial value: its evaluation, wrapped into the signal's shape *)
+Theorem C10_init_expr s e : wf_shape s = true -> cwf e = true ->
+  get_init_value (SShape s) (IExpr e) = Ok (norm s (norm (cshape e) (cdenote e))).
+Proof. exact (init_expr_spec s e). Qed.
+Print Assumptions C10_init_expr.
+
+(* a member of an integer enumeration as the initial value *)
+Theorem C10_init_enum s ms v : wf_shape s = true -> In v ms ->
+  get_init_value (SShape s) (IEnum ms v) = Ok (norm s v).
+Proof. exact (init_enum_spec s ms v). Qed.
+Print Assumptions C10_init_enum.
+
+(* --- a range-shaped signal (or memory row) accepts an int initial value exactly when it is an element of the range,
+   and keeps it unchanged --- *)
+Theorem C10_init_range_spec a b st v r : st <> 0 ->
+  get_init_value (SRange a b st) (IInt v) = Ok r <-> (range_elem a b st v /\ r = v).
+Proof. exact (init_range_spec a b st v r). Qed.
+Print Assumptions C10_init_range_spec.
+Theorem C10_init_range_rejects a b st v : st <> 0 -> ~ range_elem a b st v ->
+  get_init_value (SRange a b st) (IInt v) = Err 4.
+Proof. exact (init_range_rejects a b st v). Qed.
+Print Assumptions C10_init_range_rejects.
+Theorem C10_range_mem_iff a b st v : st <> 0 -> range_mem a b st v = true <-> range_elem a b st v.
+Proof. exact (range_mem_iff a b st v). Qed.
+Print Assumptions C10_range_mem_iff.
+
+(* FINDING (reported): the range test is made on the object the user passed, not on its value — an initial value given
+   as a Const (or Cat) is a TypeError although its value is an element, a plain-Enum member a SyntaxError *)
+Theorem C10_range_init_nonint_refuted : exists a b st e ms v, st <> 0 /\ cwf e = true /\
+  range_elem a b st (fst (const_cast e)) /\ get_init_value (SRange a b st) (IExpr e) = Err 1 /\
+  In v ms /\ range_elem a b st v /\ get_init_value (SRange a b st) (IEnum ms v) = Err 4.
+Proof.
+  exists 0, 8, 1, (CConst 3 (Sh 2 false)), [1; 5], 5. repeat split; try reflexivity; try lia.
+  - exists 3. vm_compute. repeat split; congruence.
+  - right; left; reflexivity.
+  - exists 5. vm_compute. repeat split; congruence.
+Qed.
+Print Assumptions C10_range_init_nonint_refuted.
+
+(* --- memory initial rows: every given row is converted like a signal's initial value, missing rows are 0 --- *)
+Theorem C10_mem_init_rows sp depth elems rows : mem_init sp depth elems = Ok rows ->
+  Z.of_nat (length rows) = depth /\
+  (forall i, (i < length elems)%nat -> get_init_value sp (nth i elems INone) = Ok (nth i rows 0)) /\
+  (forall i, (length elems <= i)%nat -> nth i rows 0 = 0).
+Proof. exact (mem_init_rows sp depth elems rows). Qed.
+Print Assumptions C10_mem_init_rows.
+Theorem C10_mem_init_rejects sp depth elems c : mem_init sp depth elems = Err c ->
+  depth < 0 \/ depth < Z.of_nat (length elems) \/
+  exists i, (i < length elems)%nat /\ get_init_value sp (nth i elems INone) = Err c.
+Proof. exact (mem_init_rejects sp depth elems c). Qed.
+Print Assumptions C10_mem_init_rejects.
+
+Example C10_mem_init_example :
+  mem_init (SShape (Sh 3 true)) 3 [IInt 7; IInt (-9)] = Ok [-1; -1; 0] /\
+  mem_init (SRange 0 8 1) 2 [IInt 7; IInt 8] = Err 4 /\
+  mem_init (SShape (Sh 4 false)) 1 [IInt 1; IInt 2] = Err 2 /\
+  mem_init (SShape (Sh 4 false)) 3 [IExpr (CCat [CConst 1 (Sh 1 false); CConst 1 (Sh 2 false)]); IEnum [1; 5] 5] = Ok [3; 5; 0].
+Proof. vm_compute. repeat split. Qed.
+
+(* --- enumeration classes whose members carry their own constant shapes (Const-valued members) --- *)
+Theorem C10_cast_enum_shapes_is_unify l : cast_enum_shapes l = Shape.unify l.
+Proof. exact (cast_enum_shapes_is_unify l). Qed.
+Print Assumptions C10_cast_enum_shapes_is_unify.
+
+(* --- Flag classes: every single-bit member is representable … --- *)
+Theorem C10_cast_flag_singles ms v : In v ms -> single_bit v = true -> in_range (cast_flag ms) v.
+Proof. exact (cast_flag_singles ms v). Qed.
+Print Assumptions C10_cast_flag_singles.
+(* FINDING (reported): … but a multi-bit member is not counted (the class iteration skips it): class F(Flag): A = 1; C = 6
+   casts to unsigned(1), and Const(F.C) holds 0 *)
+Theorem C10_cast_flag_refuted : exists ms v, In v ms /\ 0 < v /\ ~ in_range (cast_flag ms) v /\
+  const_norm (cast_flag ms) v <> v.
+Proof. exact cast_flag_refuted. Qed.
+Print Assumptions C10_cast_flag_refuted.
